@@ -174,6 +174,9 @@ Definition inputs := list (string * list ifield).
 (* build_client_schema(introspection_from_schema(S)): no AST nodes; default VALUES kept
    (defaultValue is printed and re-coerced); deprecated input fields are not even asked for
    (get_introspection_query(input_value_deprecation=False)) *)
+(* (the value is kept exactly when the schema has no deprecated input field; otherwise keys that
+   name deprecated fields of nested input objects are dropped from object values too - the tie
+   checks that refinement, no theorem uses the value in that case) *)
 Definition via_field (f : ifield) : ifield :=
   {| if_name := if_name f; if_type := if_type f; if_ast_default := None;
      if_value_default := if_value_default f; if_has_node := false;
